@@ -1,5 +1,5 @@
 """C05 - cut commits the clause and nothing else."""
-from lib import semcheck, progs
+from lib import semcheck, progs, progs_shapes
 from lib.semcheck import impl, model_expr, compare, oracle, describe, shrink, IMPORTS
 
 ID = 'C05'
@@ -13,6 +13,9 @@ RULE = ('random programs as for C01 whose bodies also contain ! at the top level
         'Non-trivial: the program contains a cut, some query has an answer, and the predicate with the cut has a later clause or a goal with '
         'several solutions to the left of the cut.')
 TRUSTED_BASE = []
+
+N_LONG = {'quick': 50, 'thorough': 1200}
+N_REC = {'quick': 50, 'thorough': 1200}
 
 def gen(rng, tier):
     n = 220 if tier == 'quick' else 5000
@@ -30,6 +33,11 @@ def gen(rng, tier):
                 body = ['and', ['cut'], body]
             cl.append([name, args, body])
         cases.append({'clauses': cl, 'queries': p['queries']})
+    # program shapes that the layered random programs never reach (lib/progs_shapes.py)
+    for _ in range(N_LONG[tier]):
+        cases.append(progs_shapes.gen_long_body_program(rng))
+    for _ in range(N_REC[tier]):
+        cases.append(progs_shapes.gen_recursive_program(rng))
     return cases
 
 def builtin_corpus():
